@@ -158,10 +158,34 @@ class ClosureModel(Model):
         return it, ok
 
     def canon(self, tpl, st):
+        return self.observed(tpl, st) + self.model_identity(tpl, st)
+
+    def observed(self, tpl, st):
         t = self.T[tpl]
         it, ok = self._run(tpl, st["hist"], [("print", o) for o in t["observers"]])
         n = len(t["observers"])
         return tuple(it.out[-n:])
+
+    def model_identity(self, tpl, st):
+        """identity relations that only the model can see (no expression of the language is needed or assumed): which of the listed
+        variable.field paths hold the very same container.  They refine state identity, so that 'shares the list' and 'holds an
+        equal list' are different states and both get expanded."""
+        paths = self.T[tpl].get("same_container")
+        if not paths:
+            return ()
+        it, ok = self._run(tpl, st["hist"])
+
+        def resolve(path):
+            v = it.frames[0].scopes[0][path[0]].v
+            for f in path[1:]:
+                v = v.fields[f].v
+            return v
+        vals = [resolve(p) for p in paths]
+        return tuple(vals[i] is vals[j] for i in range(len(vals)) for j in range(i + 1, len(vals)))
+
+    def final_observation(self, tpl, st):
+        t = self.T[tpl]
+        return refint.program([("print", o) for o in t["observers"]]), self.observed(tpl, st)
 
     def ops(self, tpl, st):
         t = self.T[tpl]
@@ -240,23 +264,60 @@ def site_bodies():
     return B
 
 
+# what the closure does to the captured name BEFORE the site statement: nothing, a plain assignment (a local of the closure
+# that shadows the captured variable from then on: every later use, including inner closures, means the local), a plain
+# assignment reading the captured value, a `modify` (write-through), or a shadow confined to a nested block
+PREFIXES = {
+    "": [],
+    "shadow": [asg("cv", I(40))],
+    "self-assign": [asg("cv", ("bin", "+", V("cv"), I(10)))],
+    "modify": [asg("cv", ("bin", "+", V("cv"), I(5)), None, ("modify",))],
+    "shadow-in-block": [("if", ("bool", True), [asg("cv", I(40)), ("print", V("cv"))], None)],
+}
+
+
+# sites whose closure hands out an INNER closure that is called after the closure itself has returned (so that nothing on the
+# call stack can stand in for a wrongly bound capture); `cl()` yields the inner function, which the harness calls
+ESC_SITES = {
+    "esc-read": [("return", fn([], "int", [("return", V("cv"))]))],
+    "esc-modify": [("return", fn([], "int", [asg("cv", ("bin", "+", V("cv"), I(1)), None, ("modify",)), ("return", V("cv"))]))],
+    "esc-read-from-block": [("if", ("bool", True), [("return", fn([], "int", [("return", V("cv"))]))], None),
+                            ("return", fn([], "int", [("return", I(0))]))],
+    "esc-two-levels": [("return", fn([], "int", [asg("in2", fn([], "int", [("return", V("cv"))])), ("return", call("in2"))]))],
+}
+
+
 def site_program(site, nesting, owner_kind):
     """closure created at `nesting` levels below the owner of cv; the owner assigns cv after creating the closure."""
-    body = site_bodies()[site]
-    clo = fn([], "int", body)
+    prefix, _, base = site.rpartition("+")
+    esc = base in ESC_SITES
+    body = PREFIXES[prefix] + (ESC_SITES[base] if esc else site_bodies()[base])
+    clo = fn([], FN0 if esc else "int", body)
+    FN0_ = f"fn() -> {FN0}" if esc else FN0
     # wrap: nesting 1 = closure defined directly in the owner's scope; 2 = inside a function defined there; 3 = two levels
     if nesting == 1:
         make = [asg("cl", clo)]
     elif nesting == 2:
-        make = [asg("mk", fn([], FN0, [("return", clo)])), asg("cl", call("mk"))]
+        make = [asg("mk", fn([], FN0_, [("return", clo)])), asg("cl", call("mk"))]
     else:
-        make = [asg("mk", fn([], f"fn() -> {FN0}", [("return", fn([], FN0, [("return", clo)]))])),
+        make = [asg("mk", fn([], f"fn() -> {FN0_}", [("return", fn([], FN0_, [("return", clo)]))])),
                 asg("mk2", call("mk")), asg("cl", call("mk2"))]
-    use = [("print", call("cl")), ("print", V("cv")), asg("cv", I(2)), ("print", call("cl")), ("print", V("cv")),
-           ("print", ("method", V("cl"), "is_closure", []))]
+    if esc:
+        # two inner functions from two executions of the closure, interleaved calls, the owner's variable observed and re-assigned
+        use = [asg("k1", call("cl")), ("print", call("k1")), ("print", call("k1")), ("print", V("cv")), asg("cv", I(2)),
+               asg("k2", call("cl")), ("print", call("k2")), ("print", call("k1")), ("print", V("cv")),
+               ("print", ("method", V("k1"), "is_closure", []))]
+    else:
+        use = [("print", call("cl")), ("print", V("cv")), asg("cv", I(2)), ("print", call("cl")), ("print", V("cv")),
+               ("print", ("method", V("cl"), "is_closure", []))]
     if owner_kind == "escaped":
         # the closure outlives the execution of its owner: it is returned and called after the owner has returned
-        owner = fn([("p", "int")], FN0, [asg("cv", V("p"))] + make + [("return", V("cl"))])
+        owner = fn([("p", "int")], FN0_, [asg("cv", V("p"))] + make + [("return", V("cl"))])
+        if esc:
+            return [asg("own", owner), asg("e1", call("own", I(1))), asg("k1", call("e1")), ("print", call("k1")), ("print", call("k1")),
+                    asg("k2", call("e1")), ("print", call("k2")), ("print", call("k1")),
+                    asg("e2", call("own", I(5))), asg("k3", call("e2")), ("print", call("k3")), ("print", call("k1")),
+                    ("print", ("method", V("k1"), "is_closure", [])), ("print", ("str", "end"))]
         return [asg("own", owner), asg("e1", call("own", I(1))), ("print", call("e1")), ("print", call("e1")),
                 asg("e2", call("own", I(5))), ("print", call("e2")), ("print", call("e1")),
                 ("print", ("method", V("e1"), "is_closure", [])), ("print", ("str", "end"))]
@@ -281,14 +342,22 @@ class C07(EHistCheck):
             "created in a method, stored in a list and passed as arguments; the shadowing family), de-duplicated on the values of the "
             "template's observer expressions, every transition replayed on the real CLI; (b) capture-site matrix: the captured variable is "
             "used only inside one of 36 AST node kinds, with the closure created 1-3 levels below the owner (module, function, method, or "
-            "escaped: returned and called after the owner has returned), the owner assigning the variable after the closure was created; "
+            "escaped: returned and called after the owner has returned), the owner assigning the variable after the closure was created; the "
+            "same matrix with the site preceded, inside the closure, by a shadowing local / a plain self-assignment / a modify / a block-local "
+            "shadow of the captured name (so that inner closures created afterwards must bind the closure's own local); a third family in which "
+            "the closure returns an inner closure (reading / modifying the name, created in a block, two levels deep) that is called only after "
+            "its creator has returned, from two executions of the creator, interleaved; "
             "is_closure() is observed in every case.")
     assumptions = ["the reference interpreter with explicit cells is the model", "functions are never printed"]
 
     def layers(self, tier):
         ls = self.bfs(tier)
-        sites = [("site", s, n, o) for s in site_bodies() for n in (1, 2, 3) for o in ("module", "function", "method", "escaped")]
-        return [("capture-site-matrix", sites)] + ls
+        own = ("module", "function", "method", "escaped")
+        sites = [("site", s, n, o) for s in site_bodies() for n in (1, 2, 3) for o in own]
+        pre = [("site", f"{p}+{s}", n, o) for p in PREFIXES if p for s in site_bodies() for n in ((1, 2) if tier == "quick" else (1, 2, 3)) for o in own]
+        escs = [("site", f"{p}+{s}" if p else s, n, o) for p in PREFIXES for s in ESC_SITES for n in (1, 2, 3) for o in own]
+        return [("capture-site-matrix", sites), ("capture-site-matrix-after-shadow/self-assign/modify", pre),
+                ("inner-closure-escapes-its-creator", escs)] + ls
 
     def describe(self, case):
         if case[0] == "site":
@@ -311,7 +380,13 @@ class C07(EHistCheck):
         if res.exit != 0 and "Did not compile" in res.err:
             return {"outcome": "site-rejected", "nontrivial": False, "tags": ["site-rejected", f"srej-{site}"], "show": res.out[-300:]}
         if not ok:
-            return {"outcome": "site-model-failure", "machinery": f"model fails on site {site}: {failure}"}
+            # a prefix can push the captured value out of a site's domain (index 40 of a 4-element list): the failure is the expected behaviour
+            if res.exit == 0 or lines != it.out:
+                sig["kind"] = "missing-failure"
+                return {"outcome": "site-DIFF", "nontrivial": True, "tags": ["site"],
+                        "viol": [{"sig": sig, "what": f"{site} nesting {nesting} owner {owner}: the model stops with {failure.kind} after {it.out}; "
+                                                      f"got exit {res.exit} and {lines}", "detail": detail}]}
+            return {"outcome": "site-both-fail", "nontrivial": True, "tags": ["site", f"site-{site}"]}
         if res.exit != 0:
             sig["kind"] = "unexpected-failure"
             viol.append({"sig": sig, "what": f"{site} nesting {nesting} owner {owner}: exit {res.exit} ({driver.classify_failure(res)}): "
